@@ -4,6 +4,7 @@ package main
 
 import (
 	"go/token"
+	"sort"
 	"strings"
 
 	"golang.org/x/tools/go/ssa"
@@ -43,6 +44,7 @@ func replayLookups(p *Program) map[*ssa.Function]bool {
 func runC05(r *Run) {
 	p := r.P
 	p.initTxIface()
+	checkPlainHashes(r)
 	roots := p.Roots()
 	all := replayLookups(p)
 	lookups := map[*ssa.Function]bool{}
@@ -428,4 +430,32 @@ func edgeRejects(b *ssa.BasicBlock) bool {
 		}
 	}
 	return false
+}
+
+// checkPlainHashes: the repository functions the key rules treat as "plain hash of the argument" really are: every
+// return is a library hash (or another verified plain hash) of exactly the parameter, through conversions only.
+func checkPlainHashes(r *Run) {
+	p := r.P
+	var names []string
+	for n := range plainHashes {
+		if strings.HasPrefix(n, "utils.") {
+			names = append(names, n)
+		}
+	}
+	sort.Strings(names)
+	for _, n := range names {
+		fn := p.MustFn(n)
+		okv := len(fn.Params) == 1
+		nRet := 0
+		for _, ret := range returnsOf(fn) {
+			nRet++
+			res := ret.Results[0]
+			isParam := func(y ssa.Value) bool { return y == ssa.Value(fn.Params[0]) }
+			if isParam(res) || !isBytesOrHashOf(res, isParam) {
+				okv = false
+			}
+		}
+		r.Check(okv && nRet > 0, "C05.hashfn", n, "the replay key is the hash of exactly the bytes it is given", "hash(param) through conversions only",
+			"the key function no longer hashes exactly its argument (trimmed, re-encoded or partial input): the node's key differs from the key under which Tendermint indexed the transaction, so a byte-identical replay is not found", p.pos(fn.Pos()))
+	}
 }
